@@ -249,6 +249,27 @@ def run(ctx):
                                    summary=f"cache -k {spec_list} cat: output line {k} is {gl[k] if k < len(gl) else None!r}, the first line with the same "
                                            f"selected fields is {wl[k] if k < len(wl) else None!r}")
 
+    # two keys whose 64-bit hashes agree in the LOW 32 bits only (chosen with a Python MurmurHash64A): still different keys
+    import re as _re
+    try:
+        cseed = int(_re.search(r"def cacheSeed : Nat := (\d+)", open(os.path.join(pvlib.VERIF, "lean", "PV", "Gen", "Consts.lean")).read()).group(1))
+    except Exception:
+        cseed = 1
+    for tool_, seed_, argv in (("cache", cseed, ["-k", "2", "-t", ",", "cat"]), ("dedupe", 1, ["-f", "2", "-d", ","])):
+        pr = pvlib.low32_pair(seed_)
+        if not pr:
+            continue
+        data = b"first," + pr[0] + b",alpha\nsecond," + pr[1] + b",beta\nthird," + pr[0] + b",gamma\n"
+        want = data if tool_ == "cache" else b"first," + pr[0] + b",alpha\nsecond," + pr[1] + b",beta\n"
+        if tool_ == "cache":
+            want = b"first," + pr[0] + b",alpha\nsecond," + pr[1] + b",beta\nfirst," + pr[0] + b",alpha\n"
+        st, out, err = pvlib.run_tool([ctx.bin(tool_)] + argv, data, env=pvlib.san_env(), timeout=60)
+        ctx.count("low32-collision-pair", 1, [tool_])
+        if st != 0 or out != want:
+            pvlib.report_violation(ctx, f"low32:{tool_}", {"argv": [tool_] + argv, "stdin_hex": hx(data), "status": st, "got": hx(out), "want": hx(want)},
+                                   summary=f"{tool_} {' '.join(argv)}: the keys {pr[0].decode()} and {pr[1].decode()} differ (their 64-bit hashes agree only in the low 32 bits) but "
+                                           f"the output is {out!r}")
+
 
 def replay(ctx, rp):
     pvlib.generic_replay(ctx, rp)
